@@ -52,7 +52,7 @@ func c07Gen(seed uint64, tier string) any {
 		sc.Limits = []int64{int64(r.Range(1, 200)), 30000}
 	case 2, 3:
 		sc.Mode = "capacity"
-		sc.Family = Pick(r, []string{"sum", "fsum", "csum", "stsum", "fblocks", "blocks", "holes", "range", "concat", "repeat", "calls", "parens", "array", "stack", "dictlit", "fstrdeep"})
+		sc.Family = Pick(r, []string{"sum", "fsum", "csum", "stsum", "rsum", "dsum", "jsum", "fblocks", "blocks", "holes", "range", "concat", "repeat", "calls", "parens", "array", "stack", "dictlit", "fstrdeep"})
 		sc.N = capacityN(r, sc.Family)
 		sc.Cfg = CfgSpec{Seeded: true, SeedA: 1, SeedB: 2}
 	case 4:
@@ -101,7 +101,7 @@ func capacityN(r *Rng, fam string) int {
 		}
 	}
 	switch fam {
-	case "sum", "fsum", "csum", "stsum":
+	case "sum", "fsum", "csum", "stsum", "rsum", "dsum", "jsum":
 		return pick(4096)
 	case "blocks", "holes", "fstrdeep", "fblocks":
 		return pick(20)
@@ -217,6 +217,44 @@ func c07Eval(sc *C07Scenario, limit int64, parseLimit uint64, m *Meter, budget i
 	}
 	r.o = DoCmd(vm, Cmd{Kind: "run", Src: src})
 	m.OnStep = nil
+	r.ticks, r.steps, r.rolls, r.cancelled = m.Ticks, m.Steps, m.Rolls, m.Cancelled
+	return r
+}
+
+// c07Lazy evaluates an n-term sum that is compiled lazily: through RunExpr (rsum), as the
+// default-sides expression of '1d' in max mode (dsum), or as the body of a function restored from
+// JSON (jsum). The value is n in each case.
+func c07Lazy(sc *C07Scenario, m *Meter) c07Run {
+	n := sc.N
+	if n < 1 {
+		n = 1
+	}
+	sum := "1" + strings.Repeat("+1", n-1)
+	ResetGlobals(sc.GlobalSeed)
+	cfg := CfgSpec{Seeded: true, SeedA: 1, SeedB: 2}
+	var r c07Run
+	m.Reset()
+	m.Budget = 2_000_000
+	switch sc.Family {
+	case "rsum":
+		vm := cfg.NewVM()
+		r.o = DoCmd(vm, Cmd{Kind: "runexpr", Src: sum})
+	case "dsum":
+		cfg.Max = true
+		cfg.DefaultSide = sum
+		vm := cfg.NewVM()
+		r.o = DoCmd(vm, Cmd{Kind: "run", Src: "1d"})
+	default:
+		vm := cfg.NewVM()
+		doc, _ := json.Marshal(map[string]any{"t": 8, "v": map[string]any{"expr": "return " + sum, "name": "big", "params": []string{}}})
+		v, err := ds.VMValueFromJSON(doc)
+		if err != nil {
+			r.o = &Outcome{Kind: "run", Err: "decode: " + err.Error()}
+			break
+		}
+		vm.Attrs.Store("big", v)
+		r.o = DoCmd(vm, Cmd{Kind: "run", Src: "big()"})
+	}
 	r.ticks, r.steps, r.rolls, r.cancelled = m.Ticks, m.Steps, m.Rolls, m.Cancelled
 	return r
 }
@@ -370,7 +408,15 @@ func c07Exec(raw json.RawMessage, res *RunResult) {
 	case "capacity":
 		src, want := capacityProgram(sc.Family, sc.N)
 		sc.Src = src
-		run := c07Eval(&sc, 0, 0, m, 2_000_000, src)
+		var run c07Run
+		switch sc.Family {
+		case "rsum", "dsum", "jsum":
+			// the same oversized text reaching the compiler through a sub-VM on first use
+			run = c07Lazy(&sc, m)
+			want = "i" + strconv.Itoa(sc.N)
+		default:
+			run = c07Eval(&sc, 0, 0, m, 2_000_000, src)
+		}
 		res.Evals++
 		res.Ticks += run.ticks
 		dg.Add("cap", sc.Family, fmt.Sprint(sc.N), run.o.Key())
